@@ -217,6 +217,7 @@ type funcInfo struct {
 	substs            []substEntry
 	busyCall          map[*ssa.Call]bool
 	inOverflowProof   bool
+	inDivProof        bool
 	outEpoch, inEpoch map[*ssa.BasicBlock]map[string]string
 	// callEpoch: the epochs of the tracked fields right before each call instruction
 	callEpoch map[ssa.Instruction]map[string]string
@@ -691,6 +692,14 @@ func (fi *funcInfo) term0(v ssa.Value) Lin {
 				}
 				if ok && fi.noOverflow(x, r) {
 					return r
+				}
+			case token.SHL:
+				// x << k = x * 2^k when that does not overflow
+				if k, ok := constIntVal(x.Y); ok && k >= 0 && k < 62 {
+					r := fi.term(x.X).scale(new(big.Rat).SetInt(new(big.Int).Lsh(big.NewInt(1), uint(k))))
+					if fi.noOverflow(x, r) {
+						return r
+					}
 				}
 			case token.QUO:
 				// q = x / c, c>0 const, x>=0 provable: c*q <= x <= c*q + c-1 handled in facts (extraFacts)
